@@ -7,6 +7,7 @@ export PYTHONDONTWRITEBYTECODE=1
 cd lean || exit 1
 # every module of the project: property files and whole-tree proofs are not imported by the library root
 mods=$(find Pypika -name '*.lean' | sed 's/\.lean$//; s#/#.#g' | tr '\n' ' ')
+mkdir -p .lake
 lake build Pypika driver $mods > .lake/setup-build.log 2>&1
 rc=$?
 tail -5 .lake/setup-build.log
